@@ -191,7 +191,7 @@ def select(seed, cfg, lv, v6):
         sv, n = varint(seed)
         if n == 0:
             return ("err", "varint")
-        srt = isort(groups)
+        srt = isort([(gi, g) for gi, g in groups if g["nets"] is not None])
         tot = sum((g["w"] or 0) for _, g in srt)
         if tot < 1:
             return ("err", "chooser")
